@@ -56,9 +56,9 @@ PROPS["C05"] = {
 }
 
 PROPS["C17"] = {
-    "module": "RCE.Props.C17",
+    "module": "RCE.Props.C17chess",
     "theorems": ["RCE.Props.C17.eval_mirror", "RCE.Props.C17.eval_swap", "RCE.Props.C17.eval_range",
-                 "RCE.Props.C17.saturation_breaks_antisymmetry"],
+                 "RCE.Props.C17.saturation_breaks_antisymmetry", "RCE.Props.C17.reachable_material_bounded", "RCE.Props.C17.eval_swap_reachable", "RCE.Props.C17.eval_swap_in_every_game"],
     "streams": {"quick": [WALK_Q], "thorough": [WALK_T]},
     "rule": WALK_RULE,
     "assumptions": ["eval_swap needs per-side material <= 32767 cp (true of every reachable position; counter-example without it is a theorem)"],
@@ -137,8 +137,9 @@ PROPS["C13"] = {
 }
 
 PROPS["C11"] = {
-    "module": "RCE.Props.C11",
-    "theorems": ["RCE.Props.C11.ab_eq_negamax", "RCE.Props.C11.ref_root_value_eq", "RCE.Props.C11.ref_root_move_value_eq"],
+    "module": "RCE.Props.C11chess",
+    "theorems": ["RCE.Props.C11.ab_eq_negamax", "RCE.Props.C11.ref_root_value_eq", "RCE.Props.C11.ref_root_move_value_eq",
+                 "RCE.Props.C11.chess_ab_eq_negamax", "RCE.Props.C11.chess_ab_eq_negamax_in_every_game"],
     "streams": {"quick": [SO_Q, dict(S("search-fifty", "fifty", 64, 3), driver="search:0"), dict(S("search-mateoff", "mateoff", 160, 4), driver="search:0"), dict(S("search-promo", "promo", 1000, 3), driver="search:0"), WALK_Q],
                 "thorough": [SO_T, dict(S("search-fifty", "fifty", 64, 4), driver="search:0"), dict(S("search-mateoff", "mateoff", 1600, 4), driver="search:0"), dict(S("search-promo", "promo", 6000, 3), driver="search:0"), WALK_T]},
     "eval_key": "cases", "distinct_key": "distinct_cases",
